@@ -21,7 +21,7 @@ MIN_DECIDING = {"dr_runs_judged": 100, "previous_path_checked": 150, "followup_c
 
 
 def budget(tier):
-    return {"cases": 5000, "seconds": 55} if tier == "quick" else {"cases": 150000, "seconds": 600}
+    return {"cases": 2400, "seconds": 55} if tier == "quick" else {"cases": 150000, "seconds": 600}
 
 
 def _apply_renames(rng, root, files, dirs, n, tag):
@@ -72,6 +72,14 @@ def run_case(cs):
         if r.internal or r.exit != 0:
             cs.skip("prior-seal-failed")
             return
+        if g < prior - 1 and rng.random() < 0.5:
+            # files that are first recorded by a later generation (possibly in another format than the older files)
+            for i in range(rng.randint(1, 2)):
+                rel = os.path.join(rng.choice([""] + [k for k, v in tree.items() if v is None]), "later-g%d-%d.bin" % (g, i))
+                tree[rel] = b"later" + rng.randbytes(6) + bytes([g, i])
+                with open(os.path.join(root, rel), "wb") as f:
+                    f.write(tree[rel])
+            steps.append("add later files")
     files = sorted(k for k, v in tree.items() if v is not None)
     dirs = sorted(k for k, v in tree.items() if v is None)
     ren, classes = _apply_renames(rng, root, files, dirs, rng.randint(1, 6), "r1-")
